@@ -70,4 +70,30 @@ def stepE (L : Limits) (s : St) (o : Op) : St := if s.err then s else step L s o
 
 def run (L : Limits) (s : St) (ops : List Op) : St := ops.foldl (stepE L) s
 
+/-! ## `Packetizer.read_all(n, check_rekey)` over a socket that delivers fragments and times out -/
+
+inductive SockEv
+  | data (k : Nat)     -- `recv(n)` returned `k` bytes (at most what was asked for; 0 = end of file)
+  | timeout            -- `socket.timeout` / EAGAIN
+  deriving Repr, DecidableEq, Inhabited
+
+inductive ReadResult
+  | ok (events : Nat)          -- all `n` bytes were read, after this many socket events
+  | needRekey (lost : Nat)     -- NeedRekeyException, with this many bytes of the packet already taken off the socket
+  | eof (got : Nat)            -- EOFError (`recv` returned nothing, or the script of events ended)
+  deriving Repr, DecidableEq, Inhabited
+
+/-- `got` = bytes of this request read so far, `used` = socket events consumed -/
+def readAll (need check : Bool) (n got used : Nat) : List SockEv → ReadResult
+  | [] => if n = 0 then .ok used else .eof got
+  | ev :: evs =>
+    if n = 0 then .ok used else
+    match ev with
+    | .data k =>
+      if k = 0 then .eof got
+      else readAll need check (n - min k n) (got + min k n) (used + 1) evs
+    | .timeout =>
+      if check ∧ got = 0 ∧ need then .needRekey got
+      else readAll need check n got (used + 1) evs
+
 end PV.Rekey
